@@ -1,6 +1,6 @@
 """C10 -- PickAPerm returns exactly the best input rankings."""
 from vf import gen, ref
-from vf.core import exc_desc
+from vf.core import call, exc_desc
 from vf.lazy import ck, libx, common
 from vf.monitors import algos, large
 
@@ -59,7 +59,7 @@ def gen_case(rng, ctx):
             case["scheme"] = gen.scale(ref.PRESETS["unifying"], rng.choice([1.0, 2.0, 0.5, 3.0]))
         case.update({"scheme2": None, "dcls": "xlarge", "one": rng.random() < 0.4})
         return case
-    cls, ds = gen.dataset(rng, classes="D1 D2 D3 D3 D4 D5 D6 D6 D7 D8 D17 D17 D16 D18", nmax=8, mmax=7)
+    cls, ds = gen.dataset(rng, classes="D1 D2 D3 D3 D4 D5 D6 D6 D7 D8 D17 D17 D16 D18 D14 D14", nmax=8, mmax=7)
     ds = libx.normalise_raw(ds)
     which = rng.random()
     if which < 0.08:
@@ -143,6 +143,17 @@ def check_case(case, ctx):
     if case.get("scheme2") is not None:
         ctx.count("second_scheme_on_same_objects")
         judge(case, ctx, dataset, case["scheme2"], first=False)
+    # history: the same Dataset object is mutated in place (or a dataset derived from it is) and given to the same PickAPerm
+    # object again: judged against the rankings it holds now
+    if len(ref.universe(case["ds"])) >= 2:
+        import random
+        r2 = random.Random(gen.digest(case["ds"]))
+        kind, ok = algos.mutate_in_place(dataset, case["ds"], r2)
+        st_now, now = call(libx.raw_dataset, dataset)
+        if ok and st_now == "ok" and ref.universe(now):
+            ctx.count("runs_after_in_place_mutation")
+            ctx.count("history:" + kind)
+            judge({**case, "ds": now, "after": kind, "original_ds": case["ds"]}, ctx, dataset, case["scheme"], first=True)
 
 
 def judge(case, ctx, dataset, sch, first):
@@ -153,6 +164,8 @@ def judge(case, ctx, dataset, sch, first):
     must_refuse = (not complete) and not unifying
     ctx.unit()
     sub = {"ds": ds, "scheme": sch, "one": one}
+    if case.get("after"):
+        sub["after"], sub["original_ds"] = case["after"], case["original_ds"]
     if not first:
         sub["after_scheme"] = case["scheme"]
     st, cons, _ = algos.run_config("PickAPerm", dataset, scheme, one, 0)
@@ -228,6 +241,8 @@ def reach(counters, tier, info):
                             ("second calls under another scheme on the same Dataset / PickAPerm objects",
                              "second_scheme_on_same_objects", 1500 * k),
                             ("all-requested cases with >= 2 distinct minima of score 0", "several_minima_at_score_zero", 40 * k),
+                            ("Dataset objects aggregated again after an in-place mutation", "runs_after_in_place_mutation", 1500 * k),
+                            ("... where the step is remove_empty_rankings", "history:remove_empty", 60 * k),
                             ("datasets of 63-1100+ elements judged (vectorised reference)", "xlarge_judged", 8 if tier == "quick" else 30),
                             ("... of more than 1000 elements", "xlarge_judged_above_1000_elements", 3 if tier == "quick" else 12),
                             ("... whose distinct input rankings score differently", "xlarge_with_different_scores", 5 if tier == "quick" else 20)]:
